@@ -312,11 +312,12 @@ MemCases(u) ==
 (***************************************************************************)
 FrameVal(r) == W64(16 * r + 1, 16 * r + 2, 16 * r + 3, 16 * r + 4, 16 * r + 5, 16 * r + 6, 16 * r + 7, 128 + r)
 FrameLen == 96
-FrameProg(ins, d, s, rB, A, Bv) ==
+\* (on the fixed-metadata VM r1 is the VM's own buffer: the packet pointer is read from its first slot)
+FrameProg(ins, d, s, rB, A, Bv, vm) ==
   LET regs == [r \in 0..9 |-> IF r = d THEN A ELSE IF r = s THEN Bv ELSE FrameVal(r)]
       load(r) == IF r = rB THEN <<>> ELSE LddwSlots(r, regs[r])
       save(r) == IF r = rB THEN <<>> ELSE << StxI(8, rB, r, 8 * r) >>
-  IN Flat( (IF rB # 1 THEN << Mov64R(rB, 1) >> ELSE <<>>)
+  IN Flat( (IF vm = "fixed" THEN << LdxI(8, rB, 1, 0) >> ELSE IF rB # 1 THEN << Mov64R(rB, 1) >> ELSE <<>>)
            \o load(0) \o load(1) \o load(2) \o load(3) \o load(4) \o load(5) \o load(6) \o load(7) \o load(8) \o load(9)
            \o << ins >>
            \o save(0) \o save(1) \o save(2) \o save(3) \o save(4) \o save(5) \o save(6) \o save(7) \o save(8) \o save(9)
@@ -337,8 +338,9 @@ FrameCaseOf(t) ==
       \* packet loads through a register: a small in-bounds index instead of the value pair
       Bv == IF IsLdInd(o) THEN FromNat(8 * (t[7] % 5)) ELSE V64[t[6]]
       ins == I(o, IF IsLdAbs(o) \/ IsLdInd(o) THEN 0 ELSE d, s, 0, FrameImm(o, t[7]))
-  IN [WithPkt([BaseCase EXCEPT !.vm = "raw"], FrameLen) EXCEPT
-        !.id = t, !.fam = "frame", !.prog = FrameProg(ins, d, s, FrameBase(d, s), V64[t[5]], Bv)]
+      vm == IF t[7] = 11 THEN "fixed" ELSE "raw"          \* half of the cases on each VM kind
+  IN [WithPkt([BaseCase EXCEPT !.vm = vm], FrameLen) EXCEPT
+        !.id = t, !.fam = "frame", !.prog = FrameProg(ins, d, s, FrameBase(d, s), V64[t[5]], Bv, vm)]
 FrameCases(u) == { FrameCaseOf(t) : t \in Sample(FrameIdx(u)) }
 
 (***************************************************************************)
